@@ -34,7 +34,9 @@ def event_tok(e):
 
 
 def harness_line(case, cid):
-    return " ".join([f"case {cid}", "partial" if case["partial"] else "strict",
+    # new_unwinding: the mock is constructed by cleanup code running while the thread unwinds (the model's construction
+    # does not depend on that, so the Coq case is the same)
+    return " ".join([f"case {cid}", ("partial" if case["partial"] else "strict") + ("U" if case.get("new_unwinding") else ""),
                      f"T {len(case['terms'])}"] + [term_tok(t) for t in case["terms"]]
                     + [f"E {len(case['events'])}"] + [event_tok(e) for e in case["events"]])
 
